@@ -679,5 +679,284 @@ func init() {
 		fmt.Fprintf(&e.out, "def merge_subtract : List String := %s\n", lst(callShape("nodeReservationRestoreStateData", "mergeReservationAllocations", "subtractAllocated")))
 		fmt.Fprintf(&e.out, "def merge_append : List String := %s\n", lst(callShape("nodeReservationRestoreStateData", "mergeReservationAllocations", "appendAllocated")))
 		fmt.Fprintf(&e.out, "def filter_append : List String := %s\n", lst(callShape("Plugin", "Filter", "appendAllocated")))
+
+		// ---- extension 3: the informer transformer and the allocation result in the cycle state ----
+		// apis/extension DeprecatedDeviceResourcesMapper: deprecated name -> current name (symbol names)
+		var mapper []string
+		if x, ok := e.valueSpec("apis/extension", "DeprecatedDeviceResourcesMapper"); ok {
+			if cl, ok := x.(*ast.CompositeLit); ok {
+				for _, el := range cl.Elts {
+					if kv, ok := el.(*ast.KeyValueExpr); ok {
+						mapper = append(mapper, selName(kv.Key)+"=>"+selName(kv.Value))
+					} else {
+						e.fail("DeprecatedDeviceResourcesMapper: element is not key:value")
+					}
+				}
+			} else {
+				e.fail("DeprecatedDeviceResourcesMapper is not a composite literal")
+			}
+		} else {
+			e.fail("DeprecatedDeviceResourcesMapper not found")
+		}
+		sort.Strings(mapper)
+		fmt.Fprintf(&e.out, "def deprecatedDeviceMapper : List String := %s\n", lst(mapper))
+		// pkg/util/transformer: which transform SetupTransformers installs per resource, and the pod transformer list
+		td := "pkg/util/transformer"
+		tfTable := func(name string) []string {
+			var out []string
+			x, ok := e.valueSpec(td, name)
+			if !ok {
+				e.fail("%s not found", name)
+				return out
+			}
+			cl, ok := x.(*ast.CompositeLit)
+			if !ok {
+				e.fail("%s is not a composite literal", name)
+				return out
+			}
+			for _, el := range cl.Elts {
+				switch v := el.(type) {
+				case *ast.KeyValueExpr:
+					res := "?"
+					if c, ok := v.Key.(*ast.CallExpr); ok && len(c.Args) == 1 {
+						if bl, ok := c.Args[0].(*ast.BasicLit); ok {
+							res = strings.Trim(bl.Value, "\"")
+						}
+					}
+					out = append(out, res+"=>"+selName(v.Value))
+				default:
+					out = append(out, selName(el))
+				}
+			}
+			return out
+		}
+		tf := tfTable("transformers")
+		sort.Strings(tf)
+		fmt.Fprintf(&e.out, "def transformers_table : List String := %s\n", lst(tf))
+		fmt.Fprintf(&e.out, "def transformerFactories_table : List String := %s\n", lst(tfTable("transformerFactories")))
+		fmt.Fprintf(&e.out, "def podTransformers_list : List String := %s\n", lst(tfTable("podTransformers")))
+		// where a call sits: the loops around it, and whether it is executed UNCONDITIONALLY inside them (not in the body /
+		// else of an if, not the right operand of && / ||, not in a switch / select clause)
+		callSite := func(dir, recv, name, callee string) (found int, loops int, uncond bool) {
+			fd := e.funcDecl(dir, recv, name)
+			if fd == nil {
+				e.fail("%s.%s not found", recv, name)
+				return 0, 0, false
+			}
+			uncond = true
+			var walk func(n ast.Node, depth int, cond bool)
+			walk = func(n ast.Node, depth int, cond bool) {
+				if n == nil {
+					return
+				}
+				switch v := n.(type) {
+				case *ast.CallExpr:
+					if selName(v.Fun) == callee {
+						found++
+						loops = depth
+						if cond {
+							uncond = false
+						}
+					}
+					for _, a := range v.Args {
+						walk(a, depth, cond)
+					}
+					walk(v.Fun, depth, cond)
+					return
+				case *ast.RangeStmt:
+					walk(v.X, depth, cond)
+					walk(v.Body, depth+1, cond)
+					return
+				case *ast.ForStmt:
+					walk(v.Init, depth, cond)
+					walk(v.Cond, depth+1, cond)
+					walk(v.Post, depth+1, cond)
+					walk(v.Body, depth+1, cond)
+					return
+				case *ast.IfStmt:
+					walk(v.Init, depth, cond)
+					walk(v.Cond, depth, cond)
+					walk(v.Body, depth, true)
+					if v.Else != nil {
+						walk(v.Else, depth, true)
+					}
+					return
+				case *ast.BinaryExpr:
+					walk(v.X, depth, cond)
+					walk(v.Y, depth, cond || v.Op == token.LAND || v.Op == token.LOR)
+					return
+				case *ast.CaseClause:
+					for _, s := range v.Body {
+						walk(s, depth, true)
+					}
+					return
+				case *ast.CommClause:
+					for _, s := range v.Body {
+						walk(s, depth, true)
+					}
+					return
+				case *ast.FuncLit:
+					walk(v.Body, depth, true)
+					return
+				}
+				// generic children
+				ast.Inspect(n, func(c ast.Node) bool {
+					if c == n || c == nil {
+						return true
+					}
+					walk(c, depth, cond)
+					return false
+				})
+			}
+			walk(fd.Body, 0, false)
+			return
+		}
+		{
+			found, loops, uncond := callSite(td, "", "transformDeviceAllocations", "replaceAndEraseWithResourcesMapper")
+			fmt.Fprintf(&e.out, "def transformAlloc_helperCalls : Nat := %d\n", found)
+			fmt.Fprintf(&e.out, "def transformAlloc_loopDepth : Nat := %d\n", loops)
+			fmt.Fprintf(&e.out, "def transformAlloc_unconditional : Bool := %v\n", uncond)
+			f2, l2, u2 := callSite(td, "", "replaceAndEraseWithResourcesMapper", "replaceAndEraseResource")
+			fmt.Fprintf(&e.out, "def mapperHelper_calls : Nat := %d\n", f2)
+			fmt.Fprintf(&e.out, "def mapperHelper_loopDepth : Nat := %d\n", l2)
+			fmt.Fprintf(&e.out, "def mapperHelper_unconditional : Bool := %v\n", u2)
+		}
+		// replaceAndEraseResource: the guard order (`to` empty, `to` present, then `from` present => move + delete)
+		{
+			var guards []string
+			if fd := e.funcDecl(td, "", "replaceAndEraseResource"); fd != nil {
+				for _, st := range fd.Body.List {
+					switch v := st.(type) {
+					case *ast.IfStmt:
+						c := types.ExprString(v.Cond)
+						if v.Init != nil {
+							if as, ok := v.Init.(*ast.AssignStmt); ok && len(as.Rhs) == 1 {
+								c = types.ExprString(as.Rhs[0]) + ";" + c
+							}
+						}
+						guards = append(guards, "if "+c)
+					case *ast.AssignStmt:
+						if len(v.Rhs) == 1 {
+							guards = append(guards, "assign "+types.ExprString(v.Rhs[0]))
+						}
+					case *ast.ReturnStmt:
+						guards = append(guards, "return")
+					}
+				}
+			} else {
+				e.fail("replaceAndEraseResource not found")
+			}
+			fmt.Fprintf(&e.out, "def replaceAndErase_guards : List String := %s\n", lst(guards))
+		}
+		// Plugin.Filter, designated branch: the statements of the block that runs the trial allocate, normalised
+		// (`allocate` = a statement calling p.allocate, `return-on-failure` = an if that returns, `clear-result` =
+		// `state.allocationResult = nil`), and the conditions of the ifs around it
+		blockOf := func(name string) (stmts []string, conds []string) {
+			fd := e.funcDecl(d, "Plugin", name)
+			if fd == nil {
+				e.fail("Plugin.%s not found", name)
+				return
+			}
+			hasCall := func(n ast.Node, callee string) bool {
+				f := false
+				ast.Inspect(n, func(c ast.Node) bool {
+					if ce, ok := c.(*ast.CallExpr); ok && selName(ce.Fun) == callee {
+						f = true
+					}
+					return !f
+				})
+				return f
+			}
+			var visit func(b *ast.BlockStmt, cs []string) bool
+			visit = func(b *ast.BlockStmt, cs []string) bool {
+				direct := false
+				for _, st := range b.List {
+					switch v := st.(type) {
+					case *ast.AssignStmt, *ast.ExprStmt:
+						if hasCall(v, "allocate") {
+							direct = true
+						}
+					}
+				}
+				if direct {
+					conds = cs
+					for _, st := range b.List {
+						switch v := st.(type) {
+						case *ast.AssignStmt:
+							switch {
+							case hasCall(v, "allocate"):
+								stmts = append(stmts, "allocate")
+							case len(v.Lhs) == 1 && len(v.Rhs) == 1 && selName(v.Lhs[0]) == "allocationResult" && types.ExprString(v.Rhs[0]) == "nil":
+								stmts = append(stmts, "clear-result")
+							default:
+								stmts = append(stmts, "assign")
+							}
+						case *ast.IfStmt:
+							ret := false
+							for _, s2 := range v.Body.List {
+								if _, ok := s2.(*ast.ReturnStmt); ok {
+									ret = true
+								}
+							}
+							if ret {
+								stmts = append(stmts, "return-on-failure")
+							} else {
+								stmts = append(stmts, "if")
+							}
+						case *ast.ReturnStmt:
+							stmts = append(stmts, "return")
+						default:
+							stmts = append(stmts, "other")
+						}
+					}
+					return true
+				}
+				for _, st := range b.List {
+					if v, ok := st.(*ast.IfStmt); ok {
+						if visit(v.Body, append(append([]string{}, cs...), types.ExprString(v.Cond))) {
+							return true
+						}
+					}
+				}
+				return false
+			}
+			visit(fd.Body, nil)
+			return
+		}
+		fs, fc := blockOf("Filter")
+		fmt.Fprintf(&e.out, "def filter_trial_block : List String := %s\n", lst(fs))
+		fmt.Fprintf(&e.out, "def filter_trial_conds : List String := %s\n", lst(fc))
+		rs, rc := blockOf("Reserve")
+		fmt.Fprintf(&e.out, "def reserve_allocate_block : List String := %s\n", lst(rs))
+		fmt.Fprintf(&e.out, "def reserve_allocate_conds : List String := %s\n", lst(rc))
+		// allocate stores its result in the cycle state, once, as the last assignment to that field
+		var allocStores []string
+		if fd := e.funcDecl(d, "Plugin", "allocate"); fd != nil {
+			ast.Inspect(fd.Body, func(n ast.Node) bool {
+				if as, ok := n.(*ast.AssignStmt); ok && len(as.Lhs) == 1 && selName(as.Lhs[0]) == "allocationResult" {
+					allocStores = append(allocStores, types.ExprString(as.Rhs[0]))
+				}
+				return true
+			})
+		} else {
+			e.fail("Plugin.allocate not found")
+		}
+		fmt.Fprintf(&e.out, "def allocate_result_stores : Nat := %d\n", len(allocStores))
+		// PreFilter: the designation is dropped unless the scheduling hint names the plugin
+		var preClears []string
+		if fd := e.funcDecl(d, "Plugin", "PreFilter"); fd != nil {
+			for _, st := range fd.Body.List {
+				if v, ok := st.(*ast.IfStmt); ok {
+					for _, s2 := range v.Body.List {
+						if as, ok := s2.(*ast.AssignStmt); ok && len(as.Lhs) == 1 && selName(as.Lhs[0]) == "designatedAllocation" {
+							preClears = append(preClears, types.ExprString(v.Cond))
+						}
+					}
+				}
+			}
+		} else {
+			e.fail("Plugin.PreFilter not found")
+		}
+		fmt.Fprintf(&e.out, "def prefilter_designation_cleared_when : List String := %s\n", lst(preClears))
 	}
 }
